@@ -128,6 +128,12 @@ def make_cases(tier):
                     A.stanza(q_id, [A.node(A.var("n")), A.attrn(A.var("n"), A.attr("v", A.svar(A.cap("id"), "v")))])])
         for src in (2, 3, 7, 9, 17):
             base.append(A.case("c08dup-%d-%d-lazy" % (j, src), f, src, "lazy"))
+    # a stanza whose query is the bare wildcard, in every position of the file
+    base.append(A.case("c08wild-lazy", A.file([
+        A.stanza("(pass_statement) @p ", [A.node(A.svar(A.cap("p"), "n"))]),
+        A.stanza("_ @_any ", [A.node(A.var("k")), A.attrn(A.var("k"), A.attr("w", A.integer(1)))]),
+        A.stanza("(module) @m ", [A.node(A.svar(A.cap("m"), "n"))]),
+    ]), 1, "lazy"))
     cases = []
     maxn = 3 if tier == "quick" else 4
     for c in base:
